@@ -1,1 +1,117 @@
-int main() { return 0; } /* placeholder, replaced below */
+/* detsched_smoke: feasibility of property C02 part 2 under detsched. A small S4U program (8 actors: exec, mutex,
+ * mailbox, sleep) runs on the context factory / nthreads / synchro given by --cfg, with the real worker threads
+ * (library-internal Parmap of the raw/boost factories, or one thread per actor for the thread factory) driven by
+ * detsched. Hook H3 (simgrid_verif_yield = detsched_yield) adds scheduling points inside Parmap::next()/work().
+ * Prints the per-actor logs (each actor only writes its own buffer) and a final LOGHASH line: the hash must be
+ * the same for every configuration and every seed.
+ *
+ * usage: detsched_smoke [--detsched=SEED:SPEC | --detsched=off] [--cfg=contexts/factory:raw ...]
+ * order that matters:  Engine e(&argc, argv)  ->  detsched_enable*()  ->  create actors  ->  e.run()  -> _exit() */
+#include <simgrid/s4u.hpp>
+#include "src/verif_hooks.hpp"
+
+#include <cstdio>
+#include <cstdlib>
+#include <cstring>
+#include <string>
+#include <unistd.h>
+#include <vector>
+
+#include "detsched.h"
+
+namespace sg4 = simgrid::s4u;
+
+static std::vector<std::string> logs(8);
+
+static void logf(int me, const char* what, double v)
+{
+  char buf[128];
+  snprintf(buf, sizeof buf, "[%.6f] %s %.3f;", sg4::Engine::get_clock(), what, v);
+  logs[me] += buf;
+}
+
+static void actor(int me, sg4::MutexPtr mtx, int* shared)
+{
+  sg4::Mailbox* to   = sg4::Mailbox::by_name("mb" + std::to_string((me + 1) % 8));
+  sg4::Mailbox* mine = sg4::Mailbox::by_name("mb" + std::to_string(me));
+  for (int round = 0; round < 4; round++) {
+    sg4::this_actor::execute(1e6 * (1 + (me * 7 + round * 3) % 5));
+    logf(me, "exec", round);
+    {
+      mtx->lock();
+      int v = ++*shared; /* synchronised by the simulated mutex: the order is decided by the simulation */
+      sg4::this_actor::sleep_for(0.001 * (1 + me % 3));
+      mtx->unlock();
+      logf(me, "crit", v);
+    }
+    if (me % 2 == 0) {
+      to->put(new double(me * 100 + round), 1000 * (1 + me));
+      auto* r = mine->get<double>();
+      logf(me, "got", *r);
+      delete r;
+    } else {
+      auto* r = mine->get<double>();
+      logf(me, "got", *r);
+      delete r;
+      to->put(new double(me * 100 + round), 1000 * (1 + me));
+    }
+    sg4::this_actor::sleep_for(0.01 * ((me + round) % 4));
+  }
+  logf(me, "end", 0);
+}
+
+int main(int argc, char** argv)
+{
+  std::string ds = "off";
+  std::vector<char*> args;
+  for (int i = 0; i < argc; i++) {
+    if (strncmp(argv[i], "--detsched=", 11) == 0)
+      ds = argv[i] + 11;
+    else
+      args.push_back(argv[i]);
+  }
+  int sg_argc = (int)args.size();
+  args.push_back(nullptr);
+  sg4::Engine e(&sg_argc, args.data());
+
+  auto* zone = e.get_netzone_root();
+  std::vector<sg4::Host*> hosts;
+  for (int i = 0; i < 4; i++)
+    hosts.push_back(zone->add_host("h" + std::to_string(i), 1e9 * (1 + i)));
+  auto* link = zone->add_link("l", 1e8)->set_latency(1e-4);
+  for (int i = 0; i < 4; i++)
+    for (int j = i + 1; j < 4; j++)
+      zone->add_route(hosts[i], hosts[j], {link});
+  zone->seal();
+
+  if (ds != "off") {
+    /* after the Engine (no thread exists yet), before the first actor (thread factory: one thread per actor,
+     * created in the actor's constructor; raw/boost: the Parmap workers are created at the first parallel round) */
+    size_t c          = ds.find(':');
+    uint64_t seed     = strtoull(ds.substr(0, c).c_str(), nullptr, 10);
+    std::string spec  = c == std::string::npos ? "" : ds.substr(c + 1);
+    if (detsched_enable_spec(seed, spec.c_str()) != 0) {
+      fprintf(stderr, "bad detsched spec\n");
+      return 2;
+    }
+    simgrid_verif_yield = detsched_yield; /* H3 */
+  }
+
+  auto mtx   = sg4::Mutex::create();
+  int shared = 0;
+  for (int i = 0; i < 8; i++)
+    hosts[i % 4]->add_actor("a" + std::to_string(i), actor, i, mtx, &shared);
+  e.run();
+
+  unsigned long long h = 1469598103934665603ull;
+  for (int i = 0; i < 8; i++) {
+    printf("actor %d: %s\n", i, logs[i].c_str());
+    for (char ch : logs[i])
+      h = (h ^ (unsigned char)ch) * 1099511628211ull;
+  }
+  printf("LOGHASH %016llx clock=%.6f detsched=%s trace=%016llx steps=%ld switches=%ld threads=%d max_runnable=%d\n", h,
+         sg4::Engine::get_clock(), ds.c_str(), detsched_hash(), detsched_steps(), detsched_switches(),
+         detsched_threads_created(), detsched_max_runnable());
+  fflush(stdout);
+  _exit(0); /* detsched stays enabled up to the end: no static destruction with parked threads */
+}
